@@ -56,6 +56,9 @@ class Deep:
         """Start Deep."""
         if self.started:
             return
+        # a shutdown closed the task handler: without this a start after a shutdown fails half way (on the first
+        # config update, or in a plugin that registers a tracepoint), with no way to get the trace hooks removed
+        self.task_handler.open()
         self.config.plugins = load_plugins(self.config, self.config.PLUGINS)
         default_resource = Resource.create()
         for provider in self.config.resource_providers:
@@ -67,10 +70,9 @@ class Deep:
                 deep.logging.exception("Failed to process plugin resource {}", provider.name)
 
         self.config.resource = default_resource
-        # a shutdown closed the task handler: without this a start after a shutdown fails half way (on the first
-        # config update), with the trace hooks installed and no way to get them removed
-        self.task_handler.open()
         self.trigger_handler.start()
+        # whatever changed while we were stopped (or was applied only in part while we shut down) reaches the handler
+        self.config.tracepoints.resync()
         self.grpc.start()
         self.poll.start()
         self.started = True
